@@ -617,7 +617,98 @@ def cases_from_file(rng, n):
     return out
 
 
+def cases_tracks(rng, n):
+    """the three section parsers: the dispatcher, the builder calls (event class, data, tempo events / resolution) and the note builder are
+    recorded; the constructor's entry is written from the object that came back"""
+    import chartparse.track as ct
+    from chartparse.globalevents import GlobalEventsTrack
+    from chartparse.instrument import Difficulty, Instrument, InstrumentTrack
+    from chartparse.sync import SyncTrack
+
+    from . import gen
+    out = []
+    prof = gen.Profile(max_tracks=2, max_groups=4, max_events=3, max_tempo=3, garbage=0.1, unknown_sections=0.0)
+    ins, dif = list(Instrument), list(Difficulty)
+
+    def pick_be(a, kw):
+        return list(a)
+    BE_ = "chartparse.track.build_events_from_data"
+
+    def run(name, owner, call, args, ctor_name, fields, ctor_sources=()):
+        rec = Recorder()
+        with rec.patch(owner, "_parse_data_from_chart_lines", "._parse_data_from_chart_lines", lambda a, kw: [a[0], a[1]]), \
+                rec.patch(ct, "build_events_from_data", "chartparse.track.build_events_from_data", pick_be):
+            if owner is InstrumentTrack:
+                with rec.patch(owner, "_build_note_events_from_data", "._build_note_events_from_data", lambda a, kw: list(a)):
+                    obj, real = _call(call)
+            else:
+                obj, real = _call(call)
+        if not rec.ok:
+            return
+        table = list(rec.log)
+        if obj is not None:
+            vals = [getattr(obj, f) for f in fields]
+            table.append(f"{ctor_name} {len(vals) + 1} {ser(owner)} " + " ".join(ser(v) for v in vals) + f" R {ser(obj)}")
+        elif table and all(" E " not in e.rsplit(" R ", 1)[0] and e.rsplit(" R ", 1)[-1] != e for e in table):
+            # every recorded callee answered: the exception is the constructor's own (`__post_init__`); its arguments are the callees'
+            # answers, found by the event class each builder call was given
+            def answer(prefix):
+                return next(e.rsplit(" R ", 1)[1] for e in table if e.startswith(prefix))
+            try:
+                vals = [answer(src_) if isinstance(src_, str) else ser(src_[0]) for src_ in ctor_sources]
+            except StopIteration:
+                return
+            table.append(f"{ctor_name} {len(vals) + 1} {ser(owner)} " + " ".join(vals) + " " + real)
+        out.append((request(name, args, table), real, name))
+
+    def _call(f):
+        try:
+            o = f()
+            return o, "R " + ser(o)
+        except Unserialisable:
+            raise
+        except Exception as ex:  # noqa: BLE001
+            return None, "E " + err_tok(ex)
+
+    for _ in range(max(6, n // 6)):
+        src = gen.rand_src(rng, prof)
+        R = gen.render(src, rng, prof)
+        secs = dict(R.sections)
+        sync_lines = list(secs.get("SyncTrack", []))
+        if rng.random() < 0.15 and sync_lines:
+            rng.shuffle(sync_lines)
+        res = src.res
+        try:
+            run("syncFromChartLines", SyncTrack, lambda: SyncTrack.from_chart_lines(res, sync_lines), [SyncTrack, res, sync_lines],
+                "()(time_signature_events=,bpm_events=,anchor_events=)", ["time_signature_events", "bpm_events", "anchor_events"],
+                [f"{BE_} 3 O type:TimeSignatureEvent 0 ", f"{BE_} 3 O type:BPMEvent 0 ", f"{BE_} 2 O type:AnchorEvent 0 "])
+            st = SyncTrack.from_chart_lines(src.res, list(secs.get("SyncTrack", [])))
+        except Unserialisable:
+            continue
+        except Exception:  # noqa: BLE001
+            continue
+        be = st.bpm_events
+        ev_lines = list(secs.get("Events", []))
+        try:
+            run("globalEventsFromChartLines", GlobalEventsTrack, lambda: GlobalEventsTrack.from_chart_lines(ev_lines, be), [GlobalEventsTrack, ev_lines, be],
+                "()(text_events=,section_events=,lyric_events=)", ["text_events", "section_events", "lyric_events"])
+            for tag, body in R.sections:
+                if tag in ("Song", "SyncTrack", "Events"):
+                    continue
+                i_, d_ = rng.choice(ins), rng.choice(dif)
+                body = list(body)
+                run("instrumentFromChartLines", InstrumentTrack, lambda: InstrumentTrack.from_chart_lines(i_, d_, body, be), [InstrumentTrack, i_, d_, body, be],
+                    "()(instrument=,difficulty=,note_events=,star_power_events=,track_events=)",
+                    ["instrument", "difficulty", "note_events", "star_power_events", "track_events"])
+        except Unserialisable:
+            continue
+    return out
+
+
 GENERATORS = {
+    "instrumentFromChartLines": cases_tracks,
+    "syncFromChartLines": cases_tracks,
+    "globalEventsFromChartLines": cases_tracks,
     "fromFile": cases_from_file,
     "parseAllLinesForField": cases_field,
     "notesPerSecond": cases_rate,
